@@ -26,8 +26,17 @@ theorem accepted_clean (ops : Ops DT Val) (c : ClassDesc DT Val) (cfg : Cfg Val)
       rw [List.mem_filter]; exact ⟨hk, by simpa using hnot⟩
     rw [hl] at this; cases this
   | badModProp d v hd hcfg hval =>
-    have hok := (modProps_ok cfg c.modProps ⟨[], [], false⟩ rfl acc.mpRaised acc.mpErrs).2 d hd
-    rcases hcfg with hc | hc <;> rw [hc] at hok <;> simp [applyModProp, hval] at hok
+    have hok := ((modProps_ok cfg c.modProps ⟨[], [], false⟩ rfl acc.mpRaised acc.mpErrs).2 d hd).2
+    rcases hcfg with hc | hc | ⟨items, hc, hv⟩
+    · rw [hc] at hok; simp [applyModProp, hval] at hok
+    · rw [hc] at hok; simp [applyModProp, hval] at hok
+    · rw [hc] at hok; simp [applyModProp, hv, hval] at hok
+  | propExtraKey d items k hd hcfg hk hne =>
+    have hex := ((modProps_ok cfg c.modProps ⟨[], [], false⟩ rfl acc.mpRaised acc.mpErrs).2 d hd).1
+    rw [hcfg] at hex
+    simp only [extraKeys, List.filter_eq_nil_iff] at hex
+    have := hex k hk
+    simp [hne] at this
   | mandatory d hd hm hcv hcfg =>
     have hnone : lookup d.name (applyModProps c.modProps cfg).values = none := by
       apply modProps_no_value cfg d.name c.modProps ⟨[], [], false⟩ rfl
@@ -61,7 +70,8 @@ theorem accepted_clean (ops : Ops DT Val) (c : ClassDesc DT Val) (cfg : Cfg Val)
       have := (hnov hg).2; rw [hn] at this; cases this
 
 /-- `rejected_whole` (first half): a configuration of a well-formed class containing an unknown property or
-parameter name, an unknown parameter property or a property value of the wrong type, a value or default of the
+parameter name (also an unknown key in the dict given for a module property), an unknown parameter property or a
+property value of the wrong type, a value or default of the
 wrong type (for the datatype AFTER the overrides; limit parameters included, their datatype being derived from
 the base parameter's), an ill-typed module property, a missing mandatory property, a missing required value,
 or inverted limits, is rejected, and the report is not empty.  (Second half — nothing is registered and the
